@@ -291,7 +291,7 @@ def run_ext(ctx):
         starts.append(start)
     # the first block of a history that breaks an abstract rule is the violation (what follows depends on it);
     # code-shaped differences before it are drift
-    broken, drift = set(), {}
+    broken, drift, seen_drift = set(), {}, set()
     for i, what, fctx in fails:
         s = starts[i]
         if s in broken:
@@ -301,9 +301,16 @@ def run_ext(ctx):
         for w in what:
             if w.startswith("d:") and not judged:
                 drift[w] = drift.get(w, 0) + 1
-                if len(ctx.spec_drift) < 20:
+                if (s, w) not in seen_drift and len(ctx.spec_drift) < 20:
+                    seen_drift.add((s, w))
+                    fig = {k: fctx.get(k) for k in ("inexactClaims", "inexactUnclaimed", "committeeReward") if fctx.get(k)}
+                    if w == "d:GasPerVote":
+                        px = fctx.get("accX") or {}
+                        fig["stored_vs_predicted"] = {k: [e["gpv"].get(k), px.get(k)] for k in set(e["gpv"]) | set(px) if e["gpv"].get(k) != px.get(k)}
+                    if w == "d:StoredCommittee":
+                        fig["stored"], fig["elected"] = e["stored"], fctx.get("elected")
                     ctx.spec_drift.append({"part": PART, "prediction": w, "hist": e["hist"], "h": e["h"], "src": events[s].get("src"),
-                                           "figures": nums({k: fctx.get(k) for k in ("inexactClaims", "inexactUnclaimed", "committeeReward", "elected") if fctx.get(k)})})
+                                           "kinds": e.get("kinds"), "figures": nums(fig)})
         if not judged:
             continue
         broken.add(s)
